@@ -214,7 +214,11 @@ func c02Func(i int, s fnSpec, specs []fnSpec) Stmt {
 				for k := 0; k < cs.nret; k++ {
 					names = append(names, fmt.Sprintf("ma%d_%d", i+1, k))
 				}
-				body = append(body, Define{Names: names, Form: DefShort, Vals: []Expr{call}})
+				var vars []Expr
+				for _, n := range names {
+					vars = append(vars, Var{n})
+				}
+				body = append(body, Define{Names: names, Form: DefShort, Vals: []Expr{call}}, Print{Args: append([]Expr{StrLit{V: name + ":multi-assign"}}, vars...)})
 			}
 		case "nested":
 			inner := make([]Expr, np)
